@@ -894,6 +894,23 @@ def projected_loop(polygons):
     return log, calls
 
 
+def _claims(line, cells):
+    remaining = set(line)
+    for index in sorted(cells):
+        cell = cells[index]
+        taken = remaining & cell
+        remaining = remaining - cell
+        yield index, sorted(taken)
+
+
+def stateful_generator(line, cells):
+    out = []
+    for index, taken in _claims(line, cells):
+        for item in taken:
+            out.append((index, item))
+    return out
+
+
 def _lookup(table, key):
     try:
         return table[key]
@@ -1289,6 +1306,7 @@ CASES = {
     'result_temp': [([1, 2, -1], {}, []), ([-1], {'positive': 'down'}, []), ([], {}, [])],
     'projected_comprehension': [([1, None, 3],), ([],)],
     'projected_loop': [([1, None, 3],), ([],)],
+    'stateful_generator': [([1, 2, 3], {2: {2, 3}, 1: {1, 2}}), ([], {}), ([1], {1: set()})],
     'inline_tail': [({'a': 1, 2: 'two'}, 'a'), ({'a': 1, 2: 'two'}, '2'), ({}, 'z')],
     'inline_statement': [(2,), (0,)],
     'inline_names_do_not_clash': [([1, 2],), ([],)],
